@@ -406,13 +406,40 @@ def r_leader_entry(ctx):
     callers = P.callers_of(become)
     ctx.require(callers, 'become-leader function is never called')
     msg = R.handler_msg_param
+
+    def behind_majority(f, cfg, n):
+        """node n of f is reachable only through the 'majority reached' edge of a majority test of f"""
+        for cid, (mf, mc) in msites.items():
+            if mf is not f:
+                continue
+            for cn in U.nodes_containing(cfg, mc):
+                if cn.kind != 'cond':
+                    continue
+                if n.id in cfg.reachable_from(cfg.entry.id, avoid=[cn.id]):
+                    continue
+                t_target = [d for d, l in cn.succ if l == ('cond', True)]
+                f_target = [d for d, l in cn.succ if l == ('cond', False)]
+                via_true = n.id in cfg.reachable_from(t_target[0], avoid=[cn.id]) if t_target else False
+                via_false = n.id in cfg.reachable_from(f_target[0], avoid=[cn.id]) if f_target else False
+                op = mc.ops[0]
+                counter_left = counter_on_left(mc)
+                says_majority_when_true = (isinstance(op, (ast.Gt, ast.GtE)) and counter_left) or (isinstance(op, (ast.Lt, ast.LtE)) and not counter_left)
+                if (via_true and not via_false and says_majority_when_true) or (via_false and not via_true and not says_majority_when_true):
+                    return True
+        return False
+    # the majority test may also sit inside the become-leader function itself, in front of the state change
+    bcfg = U.explorer(ctx, become).cfg
+    lead_sets = [n_ for n_ in bcfg.nodes if n_.kind == 'stmt' and n_.ast is not None and (
+        any(isinstance(c_, ast.Call) and R.setState is not None and U.calls_method(P, become, c_, {R.setState.name}) and c_.args and R.is_state_const(c_.args[0], 'LEADER') for c_ in ast.walk(n_.ast))
+        or (isinstance(n_.ast, ast.Assign) and P.self_attr(n_.ast.targets[0], become.self_name) == R.raftState and R.is_state_const(n_.ast.value, 'LEADER')))]
+    inner_majority = bool(lead_sets) and all(behind_majority(become, bcfg, n_) for n_ in lead_sets)
     for f, call in callers:
         ex = U.explorer(ctx, f)
         cfg = ex.cfg
         n = U.node_containing(cfg, call)
         inst = '%s calls %s' % (f.qualname, become.name)
         # dominated by the true edge of a majority test
-        dom_ok = False
+        dom_ok = inner_majority
         for cid, (mf, mc) in msites.items():
             if mf is not f:
                 continue
